@@ -18,11 +18,14 @@ Applies(defuse, loc) == CASE defuse = "always"   -> TRUE
                           [] defuse = "remote"   -> loc = "remote"
                           [] defuse = "nonlocal" -> loc # "local"
 
-VARIABLES defuse, locality, prolog, phase, expanded, outcome
-dvars == <<defuse, locality, prolog, phase, expanded, outcome>>
+(* The character encoding of the document is part of the scenario and of NO rule below: what is refused and *)
+(* what is parsed does not depend on how the bytes spell the prolog.                                       *)
+Encodings == {"utf-8", "utf-16", "latin-1"}
+VARIABLES defuse, locality, prolog, phase, expanded, outcome, encoding
+dvars == <<defuse, locality, prolog, phase, expanded, outcome, encoding>>
 CONSTANTS MaxItems
 
-DInit == /\ defuse \in Defuses /\ locality \in Localities
+DInit == /\ defuse \in Defuses /\ locality \in Localities /\ encoding \in Encodings
          /\ prolog = <<>> /\ phase = "prolog" /\ expanded = FALSE /\ outcome = "-"
 (* the parser meets one more prolog item *)
 DtdItem(k) == /\ phase = "prolog" /\ Len(prolog) < MaxItems
@@ -31,10 +34,10 @@ DtdItem(k) == /\ phase = "prolog" /\ Len(prolog) < MaxItems
                    THEN phase' = "end" /\ outcome' = "refused" /\ UNCHANGED expanded
                    ELSE /\ UNCHANGED <<phase, outcome>>
                         /\ expanded' = (expanded \/ k \in {"intEntity", "paramEntity"})
-              /\ UNCHANGED <<defuse, locality>>
+              /\ UNCHANGED <<defuse, locality, encoding>>
 StartTag == /\ phase = "prolog"
             /\ phase' = "end" /\ outcome' = "parsed"
-            /\ UNCHANGED <<defuse, locality, prolog, expanded>>
+            /\ UNCHANGED <<defuse, locality, prolog, expanded, encoding>>
 DNext == StartTag \/ \E k \in Items : DtdItem(k)
 DSpec == DInit /\ [][DNext]_dvars
 
@@ -45,6 +48,6 @@ HarmlessParsed == (phase = "end" /\ \A i \in DOMAIN prolog : prolog[i] \notin Fo
 NeverMeansNever == (defuse = "never" /\ phase = "end") => outcome = "parsed"
 DEmit == IF phase = "end"
          THEN PrintT(ToJson([defuse |-> defuse, locality |-> locality, prolog |-> prolog,
-                             outcome |-> outcome]))
+                             outcome |-> outcome, encoding |-> encoding]))
          ELSE TRUE
 =============================================================================
